@@ -102,5 +102,7 @@ def replay(ctx, path):
     rc = json.load(open(path))["case"]
     rec = [x for x in vlib.run_harness(ctx, binary, cases=[{"seed": 1, "text": rc["text"]}]) if "n" in x][0]
     bad = judge_contract(rec)
+    if rec["contract"].get("diff"):
+        print("replay: the two results:\n%s" % json.dumps(rec["contract"]["diff"], indent=1))
     if bad:
         ctx.violation(rc, bad[0][:300])
